@@ -85,4 +85,9 @@ THEOREMS = [
     ("DastardV.Lemmas.ComposeLancero", "DastardV.Compose.lancero_blocks_blocksFor"),
     ("DastardV.Lemmas.ComposeLancero", "DastardV.Compose.lancero_no_pulse_lost"),
     ("DastardV.Lemmas.ComposeLancero", "DastardV.Compose.lancero_error_edges_never_lost"),
+    ("DastardV.Lemmas.ComposeLanceroExcerpt", "DastardV.Compose.chanStream_lblocks"),
+    ("DastardV.Lemmas.ComposeLanceroExcerpt", "DastardV.Compose.lancero_file_samples_are_card_words"),
+    ("DastardV.Lemmas.ComposeLanceroExcerpt", "DastardV.Compose.lancero_error_file_samples_are_card_words"),
+    ("DastardV.Lemmas.ComposeLanceroExcerpt", "DastardV.Compose.lancero_feedback_file_samples_are_mixed_words"),
+    ("DastardV.Lemmas.ComposeLanceroExcerpt", "DastardV.Compose.excerpt_sample_of_word"),
 ]
